@@ -18,7 +18,7 @@ From UV.Base Require Import Cop Res.
 From UV.Gen Require Import Tables.
 From UV.Py Require Import PyStr.
 From UV.Vers Require Import Model VersText.
-From UV.Native Require Import Advisory AdvisoryProofs SnykProofs GitlabProofs.
+From UV.Native Require Import Advisory AdvisoryProofs SnykProofs GitlabProofs SnykBracket.
 From UV.Schemes Require Import Common Generic.
 Import ListNotations.
 Local Open Scope list_scope.
@@ -87,6 +87,20 @@ Example C15_gitlab_inhabited :
   table_ok native_table_NpmVersionRange = true.
 Proof. split; vm_compute; reflexivity. Qed.
 
+(* Snyk bracket notation: the item "<open><lower>,<upper><close>" with plain version texts, either bound possibly
+   missing, converts to exactly the bounds it states (the bracket table is the one of /repo) *)
+Theorem C15_snyk_bracket_item :
+  forall (V : Type) (vctor : str -> res V) (lo hi : option str) (li hi_incl : bool) (cs1 cs2 : list (constr V)),
+    SnykBracket.oplain lo = true -> SnykBracket.oplain hi = true ->
+    obound V vctor lo (if li then GE else GT) = Ok cs1 -> obound V vctor hi (if hi_incl then LE else LT) = Ok cs2 ->
+    snyk_item V vctor (c_ob li :: SnykBracket.otext lo ++ c_comma :: SnykBracket.otext hi ++ [c_cb hi_incl]) = Ok (cs1 ++ cs2).
+Proof. exact snyk_bracket_item. Qed.
+Example C15_snyk_bracket_inhabited :
+  snyk_item str gen_ctor (list_ascii_of_string "[1.0,2.0)") = Ok [C GE (list_ascii_of_string "1.0"); C LT (list_ascii_of_string "2.0")] /\
+  snyk_item str gen_ctor (list_ascii_of_string "(,2.0]") = Ok [C LE (list_ascii_of_string "2.0")] /\
+  bplain (list_ascii_of_string "1.0") = true.
+Proof. repeat split; vm_compute; reflexivity. Qed.
+
 Print Assumptions C15_comparator_tables_read_every_spelling_as_itself.
 Print Assumptions C15_splitter_returns_the_stated_comparator_and_version.
 Print Assumptions C15_github_clause.
@@ -95,3 +109,5 @@ Print Assumptions C15_snyk_item.
 Print Assumptions C15_snyk_item_inhabited.
 Print Assumptions C15_gitlab_expression.
 Print Assumptions C15_gitlab_inhabited.
+Print Assumptions C15_snyk_bracket_item.
+Print Assumptions C15_snyk_bracket_inhabited.
